@@ -3,7 +3,7 @@
 PLAN = {
     'C01': dict(level='proof', engines=['sumlib', 'segnative', 'tasknative', 'beatstruct', 'libconf']),
     'C02': dict(level='proof', engines=['tasknative']),
-    'C03': dict(level='proof', engines=['bundles']),
+    'C03': dict(level='proof', engines=['bundles', 'multipitchnative']),
     'C04': dict(level='proof', engines=['keynative', 'matchnative', 'tasknative', 'multipitchnative', 'libconf']),
     'C05': dict(level='other', engines=['matchnative'],
                 explanation='The property is about the matcher bodies (Hopcroft-Karp, hit-window search, note-matching matrices); these are checked by exhaustive '
